@@ -91,7 +91,8 @@ PROPS["C03"] = {
          "plan": {"tri": False, "sws": q(tier, "SOME", "ALL"), "adv": q(tier, 6, 16), "validate": True}},
     ],
     "gens": lambda tier: [{"topic": "adv", "n": q(tier, 120, 3000)}, {"topic": "big", "n": q(tier, 4, 16)},
-                          {"topic": "typ", "n": q(tier, 300, 6000)}, {"topic": "condfuzz", "n": q(tier, 800, 15000)}],
+                          {"topic": "typ", "n": q(tier, 300, 6000)}, {"topic": "condfuzz", "n": q(tier, 800, 15000)},
+                          {"topic": "samef", "n": q(tier, 60, 1200)}],
     "rules": ["load_outcome", "load_panic", "opt_panic", "match_panic", "validate_panic", "ser_panic"],
     "chunk": 1500,
 }
@@ -204,7 +205,8 @@ PROPS["C08"] = {
          "invariants": ["CountLaw", "PinnedEnough", "Emit"],
          "forms": ["key_plain", "key_all", "key_of", "seq_all", "seq_of", "idl_all", "idl_of", "seqm_all", "seqm_of"], "workers": 8},
     ],
-    "gens": lambda tier: [{"topic": "quant", "n": q(tier, 500, 10000)}, {"topic": "bigc", "n": q(tier, 12, 100)}],
+    "gens": lambda tier: [{"topic": "quant", "n": q(tier, 500, 10000)}, {"topic": "bigc", "n": q(tier, 12, 100)},
+                          {"topic": "samefq", "n": q(tier, 300, 6000)}],
     "rules": ["oracle", "den", "alt_fails", "load_outcome", "match_panic"],
     "chunk": 500,
 }
